@@ -337,6 +337,15 @@ func montClass(name string) *big.Int {
 		return montWords(new(big.Int).Lsh(one, 64))
 	case "mont:2^128":
 		return montWords(new(big.Int).Lsh(one, 128))
+	// the other way round: the canonical value whose digits are those of the Montgomery form of k (k * 2^256 mod r)
+	case "asmont:1":
+		return new(big.Int).Mod(two256, modR)
+	case "asmont:2":
+		return new(big.Int).Mod(new(big.Int).Lsh(two256, 1), modR)
+	case "asmont:-1":
+		return new(big.Int).Sub(modR, new(big.Int).Mod(two256, modR))
+	case "asmont:R":
+		return new(big.Int).Mod(new(big.Int).Mul(two256, two256), modR)
 	}
 	return nil
 }
